@@ -260,7 +260,7 @@ Definition check_indexcache (c : icase) : list string :=
    that holds the signing key; "k2" = verified with a keyring that does not (every
    parse is an error, which the cache stores like a result). *)
 Definition content := list (string * string).
-Record rref := { rr_pin : string; rr_dir : nat; rr_ctx : string; rr_http : bool }.
+Record rref := { rr_pin : string; rr_dir : nat; rr_ctx : string; rr_http : bool; rr_hdr : string }.
 Definition ixobs := (nat * string * content)%type.               (* directory, Name(), packages *)
 Definition jres := option (list (string * string * nat)).        (* (name, version, directory) install list *)
 Inductive jev :=
@@ -272,25 +272,37 @@ Definition jkey (r : rref) : ekey := {| ek_path := rr_dir r; ek_ctx := rr_ctx r;
 Definition j_parse (k : ekey) (c : content) : option ixobs :=
   if String.eqb (ek_ctx k) "k2" then None else Some (ek_path k, ek_name k, c).
 
-(* a remote index is keyed by its ETag (the harness' server derives it from the
-   bytes): always the present contents; a missing one is a 404, an error *)
-Definition j_remote (fs : files content) (r : rref) : gres ixobs :=
-  match current j_parse fs (jkey r) with GMissing => GGot None | g => g end.
+(* a remote index is keyed by its ETag and NOT cached at all when the server sends
+   no ETag - with or without a Last-Modified header, which the code does not look
+   at (Model/CachesIndex.rc_get).  [rr_hdr]: what the harness' server sends for the
+   line: "etag" (or "") = an ETag derived from the bytes (modelled as the bytes
+   themselves) and Last-Modified, "lastmod" = Last-Modified only, "none" = neither.
+   A missing remote index is a 404, an error. *)
+Definition content_eqb : content -> content -> bool := list_eqb nv_eqb.
+Definition j_served (fs : files content) (r : rref) : rfiles content content :=
+  match fget fs (rr_dir r) with
+  | Some (_, c) => [(rr_dir r, (if String.eqb (rr_hdr r) "etag" || String.eqb (rr_hdr r) "" then Some c else None, c))]
+  | None => []
+  end.
+Definition j_remote (fs : files content) (r : rref) : gres ixobs := rcurrent j_parse (j_served fs r) (jkey r).
 
 (* the local lines go through the cache model in repository order (any schedule
-   gives the same slots and an equivalent cache: c08_index_list_schedule_independent) *)
-Fixpoint j_slots (fs : files content) (x : icache ixobs) (repos : list rref) : icache ixobs * list (option (gres ixobs)) :=
+   gives the same slots and an equivalent cache: c08_index_list_schedule_independent),
+   the remote ones through the model of the remote branch *)
+Definition jstate := (icache ixobs * remote_cache ixobs content)%type.
+Fixpoint j_slots (fs : files content) (x : jstate) (repos : list rref) : jstate * list (option (gres ixobs)) :=
   match repos with
   | [] => (x, [])
   | r :: t =>
-      if rr_http r then let (x', sl) := j_slots fs x t in (x', Some (j_remote fs r) :: sl)
-      else let (x1, g) := ic_get j_parse fs x (jkey r) in
-           let (x', sl) := j_slots fs x1 t in (x', Some g :: sl)
+      if rr_http r then
+        let (y1, g) := rc_get content_eqb j_parse (j_served fs r) (snd x) (jkey r) in
+        let (x', sl) := j_slots fs (fst x, y1) t in (x', Some g :: sl)
+      else let (x1, g) := ic_get j_parse fs (fst x) (jkey r) in
+           let (x', sl) := j_slots fs (x1, snd x) t in (x', Some g :: sl)
   end.
 Definition j_fresh (fs : files content) (repos : list rref) : option (list ixobs) :=
   assemble (List.map (fun r => Some (if rr_http r then j_remote fs r else current j_parse fs (jkey r))) repos).
 
-Definition content_eqb : content -> content -> bool := list_eqb nv_eqb.
 Definition ixobs_eqb (a b : ixobs) : bool :=
   Nat.eqb (fst (fst a)) (fst (fst b)) && String.eqb (snd (fst a)) (snd (fst b)) && content_eqb (snd a) (snd b).
 Definition nvd_eqb (a b : string * string * nat) : bool :=
@@ -300,7 +312,7 @@ Definition jres_eqb : jres -> jres -> bool := option_eqb (list_eqb nvd_eqb).
 Definition stale_tag (known : bool) : string :=
   if known then "viol:index-cache-stale-after-rewrite-with-unchanged-mtime" else "viol:index-cache-stale".
 
-Fixpoint jrun (fs : files content) (x : icache ixobs) (bad : list nat) (evs : list jev) : list string :=
+Fixpoint jrun (fs : files content) (x : jstate) (bad : list nat) (evs : list jev) : list string :=
   match evs with
   | [] => []
   | JWrite d mt c :: t =>
@@ -313,7 +325,17 @@ Fixpoint jrun (fs : files content) (x : icache ixobs) (bad : list nat) (evs : li
       let (x', sl) := j_slots fs x repos in
       let model := assemble sl in
       let fresh := j_fresh fs repos in
-      let known := existsb (fun r => existsb (Nat.eqb (rr_dir r)) bad) repos in
+      (* the former finding's mechanism explains a stale answer only for LOCAL lines of a directory rewritten
+         without moving its time forward: every index that differs from the present contents must be one *)
+      let survivors := List.filter (fun r => match (if rr_http r then j_remote fs r else current j_parse fs (jkey r)) with
+                                             | GGot (Some _) => true | _ => false end) repos in
+      let known := match obs, fresh with
+                   | Some o, Some f =>
+                       forallb (fun t => content_eqb (snd (fst (snd t))) (snd (snd (snd t))) ||
+                                         (negb (rr_http (fst t)) && existsb (Nat.eqb (rr_dir (fst t))) bad))
+                               (List.combine survivors (List.combine o f))
+                   | _, _ => false
+                   end in
       tag_if (negb (option_eqb (list_eqb ixobs_eqb) obs model)) "mismatch:index-cache-model" ++
       (if option_eqb (list_eqb ixobs_eqb) obs fresh then
          tag_if (negb (jres_eqb res oracle)) "viol:history-dependent-result"
@@ -331,4 +353,4 @@ Fixpoint jrun (fs : files content) (x : icache ixobs) (bad : list nat) (evs : li
       jrun fs x' bad t
   end.
 
-Definition check_indexhist (c : jcase) : list string := dedup_tags (jrun [] ic_empty [] (j_events c)).
+Definition check_indexhist (c : jcase) : list string := dedup_tags (jrun [] (ic_empty, rc_empty) [] (j_events c)).
